@@ -1,7 +1,7 @@
 (* C04 -- a signature is released only after the advanced key was handed over and accepted.
    Only statements; proofs in Proofs/SignProofs.v.  [sign_core] returns the result together with
    the list of callback invocations (argument, verdict); the callback is an arbitrary function. *)
-From HbsLms Require Import Base.Bytes Model.Consts Model.KeyBlob Model.Hss Model.SignCore.
+From HbsLms Require Import Base.Bytes Model.Consts Model.KeyBlob Model.Hss Model.SignCore Model.FastVerify.
 From HbsLms Require Import Proofs.SignProofs Gen.Generated.
 
 Local Open Scope N_scope.
@@ -37,5 +37,32 @@ Theorem C04_signing_key :
       end.
 Proof. reflexivity. Qed.
 
+(* the fast-verify entry point (sign_mut, trailer r found by the search): the same protocol, and a
+   message that is refused (too short, or a trailer that is not all zero) never reaches the callback *)
+Theorem C04_sign_mut_order_of_effects :
+  forall (n : nat) (H : bytes -> bytes) (blob msg r : bytes) (cb : bytes -> bool)
+         (res : res bytes) (calls : list (bytes * bool)) (msg' : bytes),
+    sign_mut K_src n H blob msg r cb = (res, calls, msg') ->
+    (length calls <= 1)%nat
+    /\ (forall sig, res = Ok sig -> exists next, calls = [(next, true)] /\ cb next = true)
+    /\ (res = Err -> calls = [] \/ exists next, calls = [(next, false)] /\ cb next = false)
+    /\ ((length msg <= n)%nat \/ all_zero (skipn (length msg - n) msg) = false ->
+        res = Err /\ calls = [] /\ msg' = msg).
+Proof.
+  intros n H blob msg r cb res calls msg'. unfold sign_mut.
+  destruct (Nat.leb_spec (length msg) n) as [Hs|Hl].
+  - intros E. injection E as <- <- <-. cbn [length].
+    repeat split; try (intros; discriminate); auto.
+  - destruct (all_zero (skipn (length msg - n) msg)) eqn:Z; cbn [negb].
+    + destruct (sign_core K_src n H blob (firstn (length msg - n) msg ++ r) cb) as [rs cl] eqn:ES.
+      intros E. injection E as <- <- _.
+      destruct (C04_order_of_effects n H blob _ cb rs cl ES) as [A [B [C _]]].
+      split; [exact A|]. split; [exact B|]. split; [exact C|].
+      intros [Hs|Hz]; [exfalso; apply (Nat.lt_irrefl n); eapply Nat.lt_le_trans; eassumption | discriminate Hz].
+    + intros E. injection E as <- <- <-. cbn [length].
+      repeat split; try (intros; discriminate); auto.
+Qed.
+
 Print Assumptions C04_order_of_effects.
 Print Assumptions C04_signing_key.
+Print Assumptions C04_sign_mut_order_of_effects.
